@@ -58,6 +58,112 @@ theorem herm_add_eps_psd (R : Matrix n n ℂ) (hR : R.IsHermitian) (ε : ℝ) (h
   exact hpsd
 
 
+section certbridge
+open scoped ComplexOrder
+variable {n : Nat}
+
+/-- squared Frobenius norm of a complex matrix: `tr(RᴴR)` (a non-negative real) -/
+noncomputable def frobSq {m k : Nat} (R : Matrix (Fin m) (Fin k) ℂ) : ℝ := (Rᴴ * R).trace.re
+
+theorem frobSq_eq_zero {m k : Nat} (R : Matrix (Fin m) (Fin k) ℂ) (h : frobSq R ≤ 0) : R = 0 := by
+  have hpsd := Matrix.posSemidef_conjTranspose_mul_self R
+  have hnn : 0 ≤ (Rᴴ * R).trace := hpsd.trace_nonneg
+  have hre : (Rᴴ * R).trace.re = 0 := le_antisymm h (Complex.nonneg_iff.mp hnn).1
+  have him : (Rᴴ * R).trace.im = 0 := ((Complex.nonneg_iff.mp hnn).2).symm
+  have : (Rᴴ * R).trace = 0 := Complex.ext hre him
+  exact Matrix.trace_conjTranspose_mul_self_eq_zero_iff.mp this
+
+/-- Matrix-level core of `psdCert` soundness -/
+theorem psd_of_cert_matrix (M V : Matrix (Fin n) (Fin n) ℂ) (dg : Fin n → ℝ) (hd : ∀ i, 0 ≤ dg i) (ε : ℝ) (hε : 0 ≤ ε)
+    (hM : Mᴴ = M) (h : frobSq (M - V * diagonal (fun i => ((dg i : ℝ) : ℂ)) * Vᴴ) ≤ ε ^ 2) :
+    (M + (ε : ℂ) • (1 : Matrix (Fin n) (Fin n) ℂ)).PosSemidef := by
+  set P : Matrix (Fin n) (Fin n) ℂ := V * diagonal (fun i => ((dg i : ℝ) : ℂ)) * Vᴴ with hP
+  have hPpsd : P.PosSemidef := QM.Psd.conj_diag_psd (𝕜 := ℂ) V dg hd
+  have hRh : (M - P).IsHermitian := by
+    unfold Matrix.IsHermitian
+    rw [Matrix.conjTranspose_sub, hM, hPpsd.isHermitian.eq]
+  have hR := herm_add_eps_psd (M - P) hRh ε hε (by
+    unfold frobSq at h
+    rw [hRh.eq] at h
+    exact h)
+  have : M + (ε : ℂ) • (1 : Matrix (Fin n) (Fin n) ℂ) = P + (M - P + (ε : ℂ) • 1) := by abel
+  rw [this]
+  exact hPpsd.add hR
+
+/-- `frob2` of the executed model is `tr(AᴴA)` (any field with involution, in particular `CRat`) -/
+theorem frob2_eq_trace' {K : Type} [Field K] [StarRing K] {m k : Nat} (A : Mat K m k) :
+    frob2 A = (A.toMᴴ * A.toM).trace := by
+  simp only [frob2, fsum_eq_sum, Matrix.trace, Matrix.diag_apply, Matrix.mul_apply,
+    Matrix.conjTranspose_apply, Mat.toM_apply, conj_eq_star]
+  rw [Finset.sum_comm]
+
+theorem frob2_re_cast {m k : Nat} (A : Mat CRat m k) : (((frob2 A).re : ℚ) : ℝ) = frobSq (mapC A) := by
+  unfold frobSq
+  rw [show (((frob2 A).re : ℚ) : ℝ) = (CRat.toC (frob2 A)).re from rfl]
+  congr 1
+  have h := frob2_eq_trace' A
+  have hconj : (mapC A)ᴴ = (A.toMᴴ).map CRat.toC := by
+    ext i j; simp [mapC, Matrix.conjTranspose_apply, CRat.toC_star]
+  rw [h, hconj, mapC, ← Matrix.map_mul, ← AddMonoidHom.map_trace]
+
+theorem mapC_diag (v : Vec CRat n) : mapC (diag v) = diagonal (fun i => CRat.toC (v.get i)) := by
+  ext i j
+  by_cases h : i = j
+  · subst h; simp [mapC, diag]
+  · simp [mapC, diag, h]
+
+theorem toC_clipPos (lam : Vec Rat n) (i : Fin n) :
+    CRat.toC ((clipPos lam).get i) = (((max ((lam.get i : ℚ) : ℝ) 0 : ℝ)) : ℂ) := by
+  apply Complex.ext
+  · by_cases h : lam.get i < 0
+    · have h' : ((lam.get i : ℚ) : ℝ) ≤ 0 := by exact_mod_cast le_of_lt h
+      simp [clipPos, CRat.ofRat, Vec.get_ofFn, h, max_eq_right h']
+    · have h' : (0 : ℝ) ≤ ((lam.get i : ℚ) : ℝ) := by exact_mod_cast not_lt.mp h
+      simp [clipPos, CRat.ofRat, Vec.get_ofFn, h, max_eq_left h']
+  · simp [clipPos, CRat.ofRat, Vec.get_ofFn]
+
+theorem mapC_add' {m k : Nat} (A B : Mat CRat m k) : mapC (A.add B) = mapC A + mapC B := by
+  ext i j; simp [mapC, Mat.add]
+theorem mapC_zero' {m k : Nat} : mapC (Mat.zero : Mat CRat m k) = 0 := by
+  ext i j; simp [mapC, Mat.zero]
+
+theorem mapC_foldl_add (Ms : List (Mat CRat n n)) (acc : Mat CRat n n) :
+    mapC (Ms.foldl Mat.add acc) = mapC acc + (Ms.map mapC).sum := by
+  induction Ms generalizing acc with
+  | nil => simp
+  | cons M Ms ih => simp [List.foldl_cons, ih, mapC_add', add_assoc]
+
+theorem mapC_sumResid (Ms : List (Mat CRat n n)) : mapC (sumResid Ms) = (Ms.map mapC).sum - 1 := by
+  unfold sumResid
+  rw [mapC_sub, mapC_foldl_add, mapC_zero', zero_add, mapC_one]
+
+theorem trMul_eq_trace' {K : Type} [Field K] {k : Nat} (A C : Mat K k k) : trMul A C = (A.toM * C.toM).trace := by
+  simp [trMul, fsum_eq_sum, Matrix.trace, Matrix.mul_apply]
+
+/-- the model's `hsOfUnitary`, entrywise in `ℂ`: `tr(B_aᴴ · U B_b Uᴴ)` -/
+theorem mapC_hsOfUnitary {d : Nat} (B : Basis CRat d) (U : Mat CRat d d) (a b : Fin (d * d)) :
+    mapC (hsOfUnitary B U) a b
+      = ((mapC (B.get a))ᴴ * (mapC U * mapC (B.get b) * (mapC U)ᴴ)).trace := by
+  rw [mapC_apply]
+  simp only [hsOfUnitary, Mat.get_ofFn]
+  rw [trMul_eq_trace', ← mapC_adj, ← mapC_adj, ← mapC_mul, ← mapC_mul, ← mapC_mul]
+  simp only [mapC, ← AddMonoidHom.map_trace, Mat.toM_mul]
+end certbridge
+
+section sums
+theorem sum4 {M : Type} [AddCommMonoid M] {n : Nat} (f : Fin n → Fin n → Fin n → Fin n → M) :
+    ∑ r, ∑ c, ∑ x, ∑ i, f r c x i = ∑ i, ∑ x, ∑ c, ∑ r, f r c x i := by
+  have e1 : ∀ r c, ∑ x, ∑ i, f r c x i = ∑ i, ∑ x, f r c x i := fun r c => Finset.sum_comm
+  simp_rw [e1]
+  have e2 : ∀ r, ∑ c, ∑ i, ∑ x, f r c x i = ∑ i, ∑ x, ∑ c, f r c x i := by
+    intro r; rw [Finset.sum_comm]; apply Finset.sum_congr rfl; intro i _; exact Finset.sum_comm
+  simp_rw [e2]
+  rw [Finset.sum_comm]; apply Finset.sum_congr rfl; intro i _
+  rw [Finset.sum_comm]; apply Finset.sum_congr rfl; intro x _
+  exact Finset.sum_comm
+
+end sums
+
 section gentables
 open QGen.C17
 
